@@ -222,7 +222,7 @@ func registerIntrinsics(m *Machine) {
 		line := m.FreshText("line")
 		m.Assume(c.Implies(hasLine, c.And(m.sle(line.W, cur.W), m.sle(line.N, cur.N), m.slt(m.IntC(0), line.N))), "ReadBytes returns a prefix of the buffer")
 		line.NL = m.IntC(1)
-		rest := Text{m.sub(cur.W, line.W), m.sub(cur.N, line.N), m.sub(cur.NL, m.IntC(1)), cur.CUU, c.UF("rest", m.intSort(), cur.ID)}
+		rest := Text{W: m.sub(cur.W, line.W), N: m.sub(cur.N, line.N), NL: m.sub(cur.NL, m.IntC(1)), CUU: cur.CUU, ID: c.UF("rest", m.intSort(), cur.ID)}
 		m.setBufText(it, p, m.Merge(hasLine, rest, m.EmptyText()).(Text))
 		out := m.Merge(hasLine, line, cur)
 		err := m.Merge(hasLine, m.nilErr(), m.namedError("io.EOF"))
@@ -244,7 +244,7 @@ func registerIntrinsics(m *Machine) {
 		s, n := a[0].(Text), a[1].(T)
 		m.obligePanic(it, m.slt(n, m.IntC(0)), "strings.Repeat: negative count")
 		mul := func(x T) T { return c.Bin(sym.OpMul, x, n) }
-		return Text{mul(s.W), mul(s.N), mul(s.NL), m.IntC(0), c.UF("rep", m.intSort(), s.ID, n)}
+		return Text{W: mul(s.W), N: mul(s.N), NL: mul(s.NL), CUU: m.IntC(0), ID: c.UF("rep", m.intSort(), s.ID, n)}
 	})
 	I["io.MultiReader"] = inline(func(m *Machine, it *Item, a []Value) Value {
 		mrT := m.lookupType("io", "multiReader")
@@ -280,7 +280,7 @@ func registerIntrinsics(m *Machine) {
 	fill := func(m *Machine, it *Item, a []Value) Value {
 		s, w := a[0].(Text), a[1].(T)
 		pad := c.Ite(m.slt(s.W, w), m.sub(w, s.W), m.IntC(0))
-		return Text{m.add(s.W, pad), m.add(s.N, pad), s.NL, s.CUU, c.Ite(c.Eq(pad, m.IntC(0)), s.ID, c.UF("pad", m.intSort(), s.ID, pad))}
+		return Text{W: m.add(s.W, pad), N: m.add(s.N, pad), NL: s.NL, CUU: s.CUU, ID: c.Ite(c.Eq(pad, m.IntC(0)), s.ID, c.UF("pad", m.intSort(), s.ID, pad))}
 	}
 	I[rw+"FillLeft"] = inline(fill)
 	I[rw+"FillRight"] = inline(fill)
